@@ -12,6 +12,7 @@ import (
 
 	"github.com/youchainhq/go-youchain/common"
 	"github.com/youchainhq/go-youchain/core/state"
+	"github.com/youchainhq/go-youchain/crypto"
 	"github.com/youchainhq/go-youchain/rlp"
 	"github.com/youchainhq/go-youchain/trie"
 )
@@ -58,7 +59,12 @@ func ValString(v *state.Validator) string {
 	}
 	d := v.Dump()
 	b, _ := json.Marshal(d)
-	return string(b)
+	// plus what would be written to the trie for it (the decoded fields above are a cache of it)
+	enc, err := rlp.EncodeToBytes(v)
+	if err != nil {
+		return string(b) + " enc-error:" + err.Error()
+	}
+	return string(b) + " enc:" + hex.EncodeToString(crypto.Keccak256(enc)[:8]) + fmt.Sprintf(" lastActive:%d ext:%x", v.LastActive(), v.Ext.Data)
 }
 
 // Live computes the live-getter digest.
